@@ -5,7 +5,7 @@ import tempfile
 import numpy
 
 from .. import fixtures
-from ..core import digest
+from ..core import digest, scratch_dir
 from . import c01
 
 META = {
@@ -20,7 +20,7 @@ META = {
     "assumptions": ["identity on the structured event array is the oracle (exact)", "region equality by behaviour: same cell index for probe points"],
     "deciding": ["roundtrip:ascii", "roundtrip:dict", "roundtrip:json", "roundtrip:dataframe"],
 }
-META["added"] = 'Added: with_datetime DataFrame route on non-chronological catalogs, catalog ids 0 and 1 always generated, exponent-notation field values (|v| < 1e-4, subnormals) also in first position, latitude-major regions.'
+META["added"] = 'Added: with_datetime DataFrame route on non-chronological catalogs, catalog ids 0 and 1 always generated, exponent-notation field values (|v| < 1e-4, subnormals) also in first position, latitude-major regions. the same file path re-used by every case.'
 MANIFEST = {
     "technique": "boundary recorder on the eight persistence functions with exact identity oracle on the structured event array; region equality by probe behaviour; generated hostile ids / millisecond phases / extreme coordinates",
     "level_text": "Each generated catalog is pushed through the four persistence routes with the real functions; the reloaded event array must be bit-identical (ids, integer ms origin times, doubles), integer catalog ids must survive every route and name/region the dict/JSON routes (region compared by the cell index of boundary-adjacent probe points).",
@@ -103,7 +103,7 @@ def ex_catalog(ctx, ev, catalog_id=None, name=None, lat_case=None, header=True, 
     ctx.current_case = rc
     tags = {"empty": len(ev) == 0, "hostile_id": any(any(ch in e[0] for ch in ',"; \t\'') for e in ev), "pre1970": any(e[1] < 0 for e in ev),
             "with_region": reg is not None, "catalog_id": catalog_id is not None}
-    tmp = tempfile.mkdtemp(prefix="c14-", dir=os.environ.get("VERIF_TMP", "/var/tmp"))
+    tmp = scratch_dir("c14-")
     ctx.count(4)
     try:
         # ---- ASCII
